@@ -68,6 +68,13 @@ Definition FrOk (s : cstate) (fr : cframe) : Prop :=
     exists x i, alookup fr d = Some (Some x) /\ cget s d = Some i /\
                 c_verified i = cs_ts s /\ c_value i = x.
 
+Lemma frR_SpecI : forall inp s fr d x, CInv inp s -> FrOk s fr -> frR fr d x -> SpecI p inp d x.
+Proof.
+  intros inp s fr d x HI Hfr Hx. unfold frR in Hx.
+  destruct (Hfr d (alookup_keys _ _ _ Hx)) as [x' [i (A & B & C & D)]].
+  assert (E : x = c_value i) by congruence. rewrite E. eapply ci_ver_sound; eauto.
+Qed.
+
 Lemma CInv_set_computed : forall inp s n e v fr rc,
   CInv inp s ->
   nkind n = KNormal -> alookup p n = Some e ->
